@@ -360,6 +360,19 @@ func (verifC19Stub) Unary(_ context.Context, req *connect.Request[conformancev1.
 
 func (verifC19Stub) ServerStream(_ context.Context, req *connect.Request[conformancev1.ServerStreamRequest], stream *connect.ServerStream[conformancev1.ServerStreamResponse]) error {
 	datas := req.Msg.GetResponseDefinition().GetResponseData()
+	if len(datas) >= 2 {
+		// several sized messages (kind c19.stream): one message per spec, nothing in between
+		for _, spec := range datas {
+			payload := verifC19SizedPayload(spec, verifC19WrapStream)
+			if payload == nil {
+				return connect.NewError(connect.CodeInvalidArgument, errors.New("verif: bad size spec"))
+			}
+			if err := stream.Send(&conformancev1.ServerStreamResponse{Payload: payload}); err != nil {
+				return err
+			}
+		}
+		return nil
+	}
 	if len(datas) != 1 {
 		return connect.NewError(connect.CodeInvalidArgument, errors.New("verif: bad size spec"))
 	}
@@ -374,6 +387,71 @@ func (verifC19Stub) ServerStream(_ context.Context, req *connect.Request[conform
 	return stream.Send(&conformancev1.ServerStreamResponse{Payload: payload})
 }
 
+const verifC19StubPatience = 8 * time.Second
+
+func verifC19WrapBidi(p *conformancev1.ConformancePayload) proto.Message {
+	return &conformancev1.BidiStreamResponse{Payload: p}
+}
+
+// one sized response per spec of the first request's response definition: full duplex = one after
+// each request received and the rest at the end of the requests, half duplex = all at the end
+func (verifC19Stub) BidiStream(_ context.Context, stream *connect.BidiStream[conformancev1.BidiStreamRequest, conformancev1.BidiStreamResponse]) error {
+	var specs [][]byte
+	full, first, sent := false, true, 0
+	sendNext := func() error {
+		payload := verifC19SizedPayload(specs[sent], verifC19WrapBidi)
+		if payload == nil {
+			return connect.NewError(connect.CodeInvalidArgument, errors.New("verif: bad size spec"))
+		}
+		sent++
+		return stream.Send(&conformancev1.BidiStreamResponse{Payload: payload})
+	}
+	// Receive with a watchdog: when the reference client finds a response above its limit it drains the
+	// rest of the response before it reports the error (connect-go), and this full-duplex handler would
+	// wait for the next request before ending the response - for good.  A correct exchange never comes
+	// near the bound (the client sends its next request, or closes, as soon as it has the response).
+	type received struct {
+		req *conformancev1.BidiStreamRequest
+		err error
+	}
+	receive := func() (*conformancev1.BidiStreamRequest, error) {
+		ch := make(chan received, 1)
+		go func() {
+			req, err := stream.Receive()
+			ch <- received{req, err}
+		}()
+		select {
+		case r := <-ch:
+			return r.req, r.err
+		case <-time.After(verifC19StubPatience):
+			return nil, connect.NewError(connect.CodeAborted, errors.New("verif: no further request"))
+		}
+	}
+	for {
+		req, err := receive()
+		if errors.Is(err, io.EOF) {
+			break
+		}
+		if err != nil {
+			return err
+		}
+		if first {
+			specs, full, first = req.GetResponseDefinition().GetResponseData(), req.GetFullDuplex(), false
+		}
+		if full && sent < len(specs) {
+			if err := sendNext(); err != nil {
+				return err
+			}
+		}
+	}
+	for sent < len(specs) {
+		if err := sendNext(); err != nil {
+			return err
+		}
+	}
+	return nil
+}
+
 func (p *verifC19Peers) stub(httpVersion conformancev1.HTTPVersion) (*conformancev1.ServerCompatResponse, error) {
 	if resp, ok := p.stubs[httpVersion]; ok {
 		return resp, nil
@@ -386,7 +464,13 @@ func (p *verifC19Peers) stub(httpVersion conformancev1.HTTPVersion) (*conformanc
 		connect.WithCompression(compression.Snappy, compression.NewSnappyDecompressor, compression.NewSnappyCompressor),
 		connect.WithCompression(compression.Zstd, compression.NewZstdDecompressor, compression.NewZstdCompressor),
 	))
-	var handler http.Handler = mux
+	var handler http.Handler = http.HandlerFunc(func(respWriter http.ResponseWriter, req *http.Request) {
+		if strings.HasSuffix(req.URL.Path, conformancev1connect.ConformanceServiceBidiStreamProcedure) && req.ProtoMajor == 1 {
+			// half-duplex bidi over HTTP/1.1, as the reference server forces it (createServer)
+			req.ProtoMajor, req.ProtoMinor = 2, 0
+		}
+		mux.ServeHTTP(respWriter, req)
+	})
 	if httpVersion == conformancev1.HTTPVersion_HTTP_VERSION_2 {
 		handler = h2c.NewHandler(handler, &http2.Server{})
 	}
@@ -407,11 +491,16 @@ func (p *verifC19Peers) call(req *conformancev1.ClientCompatRequest) (*conforman
 	if err != nil {
 		return nil, err
 	}
+	// a client that fails to answer is abandoned: the next call starts a fresh one instead of queueing
+	// behind the RPC that is stuck
 	if err := internal.WriteDelimitedMessage(client.stdin, req); err != nil {
+		p.client = nil
 		return nil, err
 	}
 	resp := &conformancev1.ClientCompatResponse{}
 	if err := internal.ReadDelimitedMessage(client.stdout, resp, "client", 30*time.Second, 64<<20); err != nil {
+		p.client = nil
+		_ = client.stdin.Close()
 		return nil, err
 	}
 	if resp.TestName != req.TestName {
@@ -426,6 +515,32 @@ func verifC19Any(msg proto.Message) *anypb.Any {
 		panic(err)
 	}
 	return a
+}
+
+// fills in what the runner's library fills in for a test case sent to `server`
+func verifC19Address(req *conformancev1.ClientCompatRequest, server *conformancev1.ServerCompatResponse,
+	httpVersion conformancev1.HTTPVersion, protocol conformancev1.Protocol, compress conformancev1.Compression,
+	method string, streamType conformancev1.StreamType) {
+	req.MessageReceiveLimit = uint32(clientReceiveLimit) // test_case_library.go expandCases: always set
+	verifC19.seq++
+	req.TestName = fmt.Sprintf("verif-c19-%06d", verifC19.seq)
+	req.HttpVersion, req.Protocol, req.Codec, req.Compression = httpVersion, protocol, conformancev1.Codec_CODEC_PROTO, compress
+	req.Host, req.Port = server.Host, server.Port
+	if req.Host == "" {
+		req.Host = internal.DefaultHost
+	}
+	service := conformancev1connect.ConformanceServiceName
+	req.Service, req.Method, req.StreamType = &service, &method, streamType
+	req.TimeoutMs = proto.Uint32(20000)
+	req.RequestHeaders = []*conformancev1.Header{
+		{Name: "x-test-case-name", Value: []string{req.TestName}},
+		{Name: "x-expect-http-version", Value: []string{strconv.Itoa(int(req.HttpVersion))}},
+		{Name: "x-expect-http-method", Value: []string{"POST"}},
+		{Name: "x-expect-protocol", Value: []string{strconv.Itoa(int(req.Protocol))}},
+		{Name: "x-expect-codec", Value: []string{strconv.Itoa(int(req.Codec))}},
+		{Name: "x-expect-compression", Value: []string{strconv.Itoa(int(req.Compression))}},
+		{Name: "x-expect-tls", Value: []string{"false"}},
+	}
 }
 
 // side off httpVersion protocol compression streamType fill -> (limit size accepted)
@@ -577,26 +692,7 @@ func verifC19Sharp(args []vsx) vsx {
 	if err != nil {
 		return vErr("server-start")
 	}
-	req.MessageReceiveLimit = uint32(clientReceiveLimit) // test_case_library.go expandCases: always set
-	verifC19.seq++
-	req.TestName = fmt.Sprintf("verif-c19-%06d", verifC19.seq)
-	req.HttpVersion, req.Protocol, req.Codec, req.Compression = httpVersion, protocol, conformancev1.Codec_CODEC_PROTO, compress
-	req.Host, req.Port = server.Host, server.Port
-	if req.Host == "" {
-		req.Host = internal.DefaultHost
-	}
-	service := conformancev1connect.ConformanceServiceName
-	req.Service, req.Method, req.StreamType = &service, &method, streamType
-	req.TimeoutMs = proto.Uint32(20000)
-	req.RequestHeaders = []*conformancev1.Header{
-		{Name: "x-test-case-name", Value: []string{req.TestName}},
-		{Name: "x-expect-http-version", Value: []string{strconv.Itoa(int(req.HttpVersion))}},
-		{Name: "x-expect-http-method", Value: []string{"POST"}},
-		{Name: "x-expect-protocol", Value: []string{strconv.Itoa(int(req.Protocol))}},
-		{Name: "x-expect-codec", Value: []string{strconv.Itoa(int(req.Codec))}},
-		{Name: "x-expect-compression", Value: []string{strconv.Itoa(int(req.Compression))}},
-		{Name: "x-expect-tls", Value: []string{"false"}},
-	}
+	verifC19Address(req, server, httpVersion, protocol, compress, method, streamType)
 	resp, err := verifC19.call(req)
 	if err != nil {
 		return vErr("client-io")
@@ -687,6 +783,14 @@ func (verifC19Discard) PrefixPrintf(string, string, ...any) {}
 // offset > 0 expects resource_exhausted (as the shipped suite states it); `accepted` is that
 // expectation when the runner's verdict is "passed" and its negation otherwise.
 func verifC19Wiring(args []vsx) vsx {
+	// optional 6th argument: whether the suite sets relies_on_message_receive_limit (default 1).  The
+	// runner hands the limit to the server in either case (server_runner.go) and the loader must expand
+	// the requests in either case, so the verdicts are the same.
+	flag := true
+	if len(args) == 6 && args[5].k == 'i' && args[5].g == nil && (args[5].i == 0 || args[5].i == 1) {
+		flag = args[5].i == 1
+		args = args[:5]
+	}
 	if len(args) != 5 || args[0].k != 'l' || len(args[0].l) == 0 || len(args[0].l) > 16 {
 		return vErr("bad-case")
 	}
@@ -718,9 +822,9 @@ func verifC19Wiring(args []vsx) vsx {
 	defer verifC19.mu.Unlock()
 
 	var yaml strings.Builder
-	fmt.Fprintf(&yaml, "name: Verif Message Size\nmode: TEST_MODE_SERVER\nreliesOnMessageReceiveLimit: true\n"+
+	fmt.Fprintf(&yaml, "name: Verif Message Size\nmode: TEST_MODE_SERVER\nreliesOnMessageReceiveLimit: %v\n"+
 		"relevantProtocols: [%s]\nrelevantHttpVersions: [%s]\nrelevantCodecs: [CODEC_PROTO]\nrelevantCompressions: [%s]\ntestCases:\n",
-		protocol, httpVersion, compress)
+		flag, protocol, httpVersion, compress)
 	for i, off := range offs {
 		fmt.Fprintf(&yaml, "- request:\n    testName: case-%02d\n    streamType: %s\n", i, streamType)
 		switch streamType {
@@ -764,7 +868,7 @@ func verifC19Wiring(args []vsx) vsx {
 	}
 	lib, err := newTestCaseLibrary(suites, []configCase{{
 		Version: httpVersion, Protocol: protocol, Codec: conformancev1.Codec_CODEC_PROTO, Compression: compress,
-		StreamType: streamType, UseMessageReceiveLimit: true,
+		StreamType: streamType, UseMessageReceiveLimit: flag,
 	}}, conformancev1.TestSuite_TEST_MODE_SERVER)
 	if err != nil {
 		if os.Getenv("VERIF_DEBUG") != "" {
